@@ -273,6 +273,76 @@ def tail_duplicate_flags(fn: ast.AST, noreturn: Set[str]) -> int:
     return changed
 
 
+def _stable_key(e: ast.expr) -> bool:
+    """A table or key expression that can be evaluated twice: names, attribute chains, constants, `id(<such>)`."""
+    if isinstance(e, (ast.Name, ast.Constant)):
+        return True
+    if isinstance(e, ast.Attribute):
+        return _stable_key(e.value)
+    if isinstance(e, ast.Call) and isinstance(e.func, ast.Name) and e.func.id in ("id", "str", "len") and len(e.args) == 1 and not e.keywords:
+        return _stable_key(e.args[0])
+    if isinstance(e, ast.Tuple):
+        return all(_stable_key(x) for x in e.elts)
+    return False
+
+
+def membership_spellings(fn: ast.AST, noreturn: Set[str]) -> int:
+    """One spelling for "is the key in the table, and if so what does it hold" (tables that hold no None):
+        x = T.get(K); if x is None: A else: B          ->  if K in T: x = T[K]; B  else: A
+        try: x = T[K]  except KeyError: A  [else: B]   ->  if K in T: x = T[K]; B  else: A      (A ends the block, or B is the else)
+    """
+    changed = 0
+    for _round in range(6):
+        did = False
+        for blk, _o, _f in _blocks_with_owner(fn):
+            for i, st in enumerate(blk):
+                # --- get-form
+                if isinstance(st, ast.Assign) and len(st.targets) == 1 and isinstance(st.targets[0], ast.Name) and i + 1 < len(blk) and isinstance(blk[i + 1], ast.If):
+                    v, x, iff = st.value, st.targets[0].id, blk[i + 1]
+                    if isinstance(v, ast.Call) and isinstance(v.func, ast.Attribute) and v.func.attr == "get" and not v.keywords and (len(v.args) == 1 or (len(v.args) == 2 and isinstance(v.args[1], ast.Constant) and v.args[1].value is None)) \
+                            and _stable_key(v.func.value) and _stable_key(v.args[0]):
+                        t = iff.test
+                        pol = None
+                        if isinstance(t, ast.Compare) and len(t.ops) == 1 and isinstance(t.left, ast.Name) and t.left.id == x and isinstance(t.comparators[0], ast.Constant) and t.comparators[0].value is None:
+                            pol = True if isinstance(t.ops[0], ast.Is) else (False if isinstance(t.ops[0], ast.IsNot) else None)
+                        if pol is not None and len(_store_nodes(fn, x)) == 1:
+                            none_arm, val_arm = (iff.body, iff.orelse) if pol else (iff.orelse, iff.body)
+                            rest_uses = sum(_uses(s_, x) for s_ in blk[i + 2 :])
+                            if not any(_uses(s_, x) for s_ in none_arm) and (rest_uses == 0 or _ends(none_arm, noreturn)):
+                                test = ast.Compare(copy.deepcopy(v.args[0]), [ast.In()], [copy.deepcopy(v.func.value)])
+                                bind = ast.Assign([ast.Name(x, ast.Store())], ast.Subscript(copy.deepcopy(v.func.value), copy.deepcopy(v.args[0]), ast.Load()))
+                                new_if = ast.If(test, [bind] + [s_ for s_ in val_arm if not isinstance(s_, ast.Pass)], list(none_arm))
+                                if rest_uses and _ends(none_arm, noreturn):
+                                    # the value is read after the decision (the other arm has left): the continuation belongs to the hit
+                                    new_if.body += blk[i + 2 :]
+                                    del blk[i + 2 :]
+                                blk[i : i + 2] = [ast.fix_missing_locations(ast.copy_location(new_if, st))]
+                                changed += 1
+                                did = True
+                                break
+                # --- try-form
+                if isinstance(st, ast.Try) and len(st.handlers) == 1 and not st.finalbody and len(st.body) == 1 and isinstance(st.body[0], ast.Assign) and len(st.body[0].targets) == 1 and isinstance(st.body[0].targets[0], ast.Name):
+                    h = st.handlers[0]
+                    a0 = st.body[0]
+                    if h.type is not None and ast.unparse(h.type) == "KeyError" and h.name is None and isinstance(a0.value, ast.Subscript) and _stable_key(a0.value.value) and _stable_key(a0.value.slice):
+                        miss = [s_ for s_ in h.body if not isinstance(s_, ast.Pass)]
+                        if st.orelse or _ends(miss, noreturn) or not any(_uses(s_, a0.targets[0].id) for s_ in blk[i + 1 :]):
+                            test = ast.Compare(copy.deepcopy(a0.value.slice), [ast.In()], [copy.deepcopy(a0.value.value)])
+                            hit = [a0] + list(st.orelse)
+                            if not st.orelse and _ends(miss, noreturn):
+                                hit += blk[i + 1 :]
+                                del blk[i + 1 :]
+                            blk[i] = ast.fix_missing_locations(ast.copy_location(ast.If(test, hit, miss), st))
+                            changed += 1
+                            did = True
+                            break
+            if did:
+                break
+        if not did:
+            break
+    return changed
+
+
 def sink_sole_decision(fn: ast.AST, noreturn: Set[str]) -> int:
     """`if c: t = E1 else: t = E2` followed by `if t: A else: B`, t read nowhere else: the decision moves into the branches
     — a constant picks its arm, an expression becomes the test.  At most one branch may carry a non-constant (one extra copy
@@ -870,7 +940,7 @@ def run(fn: ast.AST, noreturn: Set[str]) -> int:
     n = drop_self_assignments(fn)
     for _k in range(4):
         e = expand_table_lookups(fn)
-        a = tail_duplicate_flags(fn, noreturn) + sink_sole_decision(fn, noreturn)
+        a = tail_duplicate_flags(fn, noreturn) + sink_sole_decision(fn, noreturn) + membership_spellings(fn, noreturn)
         g = sink_small_continuations(fn, noreturn)
         b = propagate_flag_constants(fn)
         c = prune_constant_tests(fn)
